@@ -22,7 +22,7 @@ func init() {
 			ruleContain, ruleLex, ruleAdj, ruleAssembly, ruleSizes, ruleOnce,
 			// C01 is the umbrella property: the sequential-semantics rules of the specialised properties are
 			// necessary conditions of it as well
-			ruleC06Coerce, ruleC06Apply, ruleC06Dispatch, ruleC06Div0, ruleNegativeShift, ruleC07Contexts, ruleC07Box, ruleC07Deep,
+			ruleC06Coerce, ruleC06Apply, ruleC06Dispatch, ruleC06Div0, ruleNegativeShift, ruleOperandOrder, ruleC07Contexts, ruleC07Box, ruleC07Deep,
 			ruleC08Checks, ruleC08Defer, ruleC08DynScope, ruleC02Protocol, ruleC02Frame, ruleC02Flatten, ruleC02Escape, ruleC14Bounds, ruleC15Ops, ruleNamedLookThrough, ruleC10Order, ruleC04Nest, ruleC04SubstAttrs, ruleC02Sources, ruleC02Fixpoint, ruleC01NamedResults, ruleC02ArgOrder, ruleC06Carry, ruleC05EffectsWalk,
 			ruleC01VariadicNil, ruleC05LinknamesBeforeSelection, ruleC10LinknameSplit, ruleStructComparable, ruleC04SharedTable, ruleC02LabelledBranch, ruleBlankFields, ruleLabelNamespace, ruleCommentHoles, ruleOnceOperands, ruleCompoundAssign, ruleC04SelectionIndex, ruleC05NestedReplacements, ruleC02EscapingScope, ruleC06RemZero, ruleSliceHeaderPreserved, ruleDelegatedArgs, ruleBlockingOnlyGrows, ruleC03Flow, ruleC02DeferredSuspendFirst, ruleC04LitInfo, ruleTupleAssign, ruleC04DeferredSetup, ruleC02LazyDispatch, ruleC07ReceiverCopy},
 	})
